@@ -202,3 +202,72 @@ fn verif_native_layout_random_lists() {
         check_list("verif_native_layout_random_lists", &tags, &vals);
     }
 }
+
+/// Values that are themselves messages (one and two levels of nesting): the outer layout treats the inner message's
+/// bytes as an opaque value of length rough_tlv_len, and the views decode level by level to the same pairs.
+/// (The Kani harness for this case runs out of memory even with one-byte values.)
+#[test]
+fn verif_native_nested_messages() {
+    let t = "verif_native_nested_messages";
+    let mut seed = 0x5851_F42D_4C95_7F2Du64;
+    for inner_n in 0..=6usize {
+        for outer_n in 1..=5usize {
+            for tp in [0usize, 1, 4, 5] {
+                // inner lists, one per outer pair
+                let inners: Vec<(Vec<u32>, Vec<Vec<u8>>)> = (0..outer_n)
+                    .map(|j| (make_tags((inner_n + j) % 7, tp, &mut seed), make_vals((inner_n + j) % 7, j % 3, &mut seed)))
+                    .collect();
+                let inner_bytes: Vec<Vec<u8>> = inners.iter().map(|(tg, vl)| reference_layout(tg, vl)).collect();
+                let outer_tags = make_tags(outer_n, (tp + 1) % 7, &mut seed);
+                let want = reference_layout(&outer_tags, &inner_bytes);
+                // build it for real: the outer values are MessageWrappers
+                let inner_elems: Vec<Vec<(Tag, &[u8])>> = inners
+                    .iter()
+                    .map(|(tg, vl)| (0..tg.len()).map(|i| (Tag::new_from_u32(tg[i]), &vl[i][..])).collect())
+                    .collect();
+                let mut outer: Vec<(Tag, MessageWrapper<&[u8]>)> = Vec::new();
+                for (j, e) in inner_elems.into_iter().enumerate() {
+                    match MessageWrapper::new(e) {
+                        Ok(w) => outer.push((Tag::new_from_u32(outer_tags[j]), w)),
+                        Err(_) => fail(t, "inner MessageWrapper::new rejected a small list", &outer_tags, &inner_bytes),
+                    }
+                }
+                let w = match MessageWrapper::new(outer) {
+                    Ok(w) => w,
+                    Err(_) => fail(t, "outer MessageWrapper::new rejected a small list of messages", &outer_tags, &inner_bytes),
+                };
+                let mut sink = Rec { buf: Vec::new(), borrowed: 0 };
+                w.to_rough_tlv(&mut sink);
+                if sink.buf.len() != w.rough_tlv_len() || sink.buf != want {
+                    fail(t, "nested encoding differs from the layout of (tag, inner message bytes) pairs", &outer_tags, &inner_bytes);
+                }
+                // decode level by level
+                let view = match MessageView::new(Cow::Borrowed(&sink.buf[..])) {
+                    Ok(v) => v,
+                    Err(_) => fail(t, "MessageView::new rejected the nested encoding", &outer_tags, &inner_bytes),
+                };
+                let ord = stable_order(&outer_tags);
+                for (r, (tag, value)) in view.iter().enumerate() {
+                    let j = ord[r];
+                    if tag.value() != outer_tags[j] || value != &inner_bytes[j][..] {
+                        fail(t, "outer view returns different pairs", &outer_tags, &inner_bytes);
+                    }
+                    let (itags, ivals) = &inners[j];
+                    let iv = match MessageView::new(Cow::Borrowed(value)) {
+                        Ok(v) => v,
+                        Err(_) => fail(t, "the inner bytes are not accepted as a message", itags, ivals),
+                    };
+                    let iord = stable_order(itags);
+                    if iv.len() != itags.len() {
+                        fail(t, "inner view has a different pair count", itags, ivals);
+                    }
+                    for (k, (it, ivl)) in iv.iter().enumerate() {
+                        if it.value() != itags[iord[k]] || ivl != &ivals[iord[k]][..] {
+                            fail(t, "inner view returns different pairs", itags, ivals);
+                        }
+                    }
+                }
+            }
+        }
+    }
+}
